@@ -20,14 +20,18 @@ its own: value == stored values at that index, Jacobian without any non-zero.
 from __future__ import annotations
 
 import atexit
+import hashlib
+import json
 import math
 import os
 import shutil
 import tempfile
 import traceback
+from pathlib import Path
 
 import numpy as np
 
+from pvm.monitor import to_jsonable
 from pvm.ref import c01_dual as R
 
 PROP = "C02"
@@ -283,6 +287,12 @@ def floor(tier):
     global _FLOOR
     if _FLOOR is not None:
         return _FLOOR
+    cache = _floor_cache_file()
+    try:
+        _FLOOR = json.loads(cache.read_text())
+        return _FLOOR
+    except Exception:  # noqa: BLE001  (no cache yet / unreadable: generate)
+        pass
     warmup()
     from pvm.gen import c02_setup as S
     from pvm.gen import mdg as gm
@@ -326,8 +336,24 @@ def floor(tier):
             except RuntimeError:
                 continue
     out += _hand_cases(recipes)
-    _FLOOR = out
-    return out
+    _FLOOR = json.loads(json.dumps(to_jsonable(out)))
+    try:        # the runner generates the floor before it starts the workers
+        tmp = cache.with_suffix(f".{os.getpid()}.tmp")
+        tmp.write_text(json.dumps(_FLOOR))
+        os.replace(tmp, cache)
+    except OSError:
+        pass
+    return _FLOOR
+
+
+def _floor_cache_file():
+    """Scratch cache of the (deterministic) floor, keyed by the sources that define it."""
+    h = hashlib.sha1()
+    here = Path(__file__).resolve().parent.parent
+    for f in ("checks/c02.py", "gen/c02_setup.py", "gen/c01_expr.py", "gen/mdg.py",
+              "ref/c01_dual.py"):
+        h.update((here / f).read_bytes())
+    return Path(tempfile.gettempdir()) / f"c02_floor_{h.hexdigest()[:16]}.json"
 
 
 def _hand_cases(recipes):
@@ -758,7 +784,16 @@ def check(case, mon):
             continue
         if id(nd) not in ref.results or id(nd) not in ops.results:
             continue
+        simple = nd["a"]["op"] in ("var", "mdvar", "tdense")
         want = np.atleast_1d(np.asarray(ref.results[id(nd)], dtype=float))
+        wb = direct.results.get(id(nd))
+        if not simple and isinstance(wb, np.ndarray) and wb.shape == want.shape:
+            # composite shifted sub-tree: the direct evaluation with plain arrays performs
+            # the same floating-point operations as the parser (leaves: own fingerprints)
+            mon.measure("shifted_subtree_direct_vs_reference",
+                        _fin(R.value_residual(wb, want, np.abs(want) + np.max(np.abs(want),
+                                                                              initial=0.0))))
+            want = np.asarray(wb, dtype=float)
         try:
             with np.errstate(all="ignore"):
                 got = setup.es.evaluate(ops.results[id(nd)], derivative=True, state=dec.state)
@@ -776,7 +811,6 @@ def check(case, mon):
         if not isinstance(got, pp.ad.AdArray):
             _viol(mon, f"{nd['op']}:type", {"got": type(got).__name__})
             continue
-        simple = nd["a"]["op"] in ("var", "mdvar", "tdense")
         scale = np.abs(want) if simple else np.full(want.shape, float(np.max(np.abs(want),
                                                                             initial=0.0)))
         rv = R.value_residual(np.asarray(got.val), want, scale + 1e-300)
